@@ -202,7 +202,12 @@ impl Property for Soundness {
                 1 => crate::genr::ast::Hide::All,
                 _ => crate::genr::ast::Hide::Mask(tape.u64()),
             };
-            return Some(json!({"kind": "program", "text": crate::genr::case::print(&program, hide)}));
+            let text = crate::genr::case::print(&program, hide);
+            if tape.chance(1, 3) {
+                // near miss: the same program with one or two token-level edits
+                return Some(json!({"kind": "near-miss", "text": crate::genr::nearmiss::mutate_text(&text, tape)}));
+            }
+            return Some(json!({"kind": "program", "text": text}));
         }
         // a random cell of the binary part of the matrix
         let x = tape.below(CATALOGUE.len());
@@ -233,8 +238,14 @@ impl Property for Soundness {
                 let program = matrix::binary_program(x.ty, y.ty, BINARY[idx("t") % BINARY.len()]);
                 self.check_function(&program, &[x.values, y.values], stats)
             }
-            "program" => {
+            "program" | "near-miss" => {
                 let text = case["text"].as_str().unwrap_or("");
+                if case["kind"].as_str() == Some("near-miss") {
+                    if text.contains("import") || text.matches(['(', '[', '{']).count() > 400 {
+                        return Verdict::Discard("edited program outside the safe domain");
+                    }
+                    stats.label("near-miss programs tried");
+                }
                 let t0 = std::time::Instant::now();
                 let run = exec::run_program(text, self.monitor());
                 if std::env::var("VERIF_TRACE").is_ok() && t0.elapsed().as_millis() > 300 {
@@ -242,6 +253,9 @@ impl Property for Soundness {
                 }
                 if matches!(run.outcome, Outcome::Rejected(_)) {
                     return Verdict::Discard("rejected by the checker");
+                }
+                if case["kind"].as_str() == Some("near-miss") {
+                    stats.label("near-miss programs still accepted (executed)");
                 }
                 self.nontrivial(text, &run, stats);
                 stats.sample(10, || json!({"program": text, "outcome": run.outcome.short()}));
@@ -263,6 +277,9 @@ pub fn run(session: &Session, prop: &'static Soundness) -> i32 {
     }
     for text in crate::props::c03::corpus() {
         cases.push(json!({"kind": "program", "text": text}));
+    }
+    for text in crate::genr::nearmiss::control_placement_programs() {
+        cases.push(json!({"kind": "near-miss", "text": text}));
     }
     {
         for x in 0..CATALOGUE.len() {
@@ -286,11 +303,11 @@ pub fn run(session: &Session, prop: &'static Soundness) -> i32 {
     let (rule, assumptions): (&str, &[&str]) = match prop.mode {
         Mode::Cells => ("", &[]),
         Mode::Types => (
-            "the operator x operand-type matrix: every unary/postfix/statement template applied to a parameter of each of 60 catalogue types (exhaustive), every infix/assignment operator and two-operand template on all pairs of catalogue types (exhaustive); each function the checker accepts is called through the host API and in-language with every combination of the catalogue's values for its parameter types (every union member, empty arrays, exhausted iterators, cells); the documentation corpus and 40k (quick) tape-generated typed programs of every profile (closures, cells, iterators incl. exhausted ones, control flow, unions) are executed too. Oracle: the verif monitor reports every instruction result, argument binding, function return, the final result and every reachable cell with the static type the checker computed; the harness's own membership test (tag and contents, recursively) must hold. Non-trivial = an execution with at least one observation whose static type is a union, array, tuple, struct, function or mut; distinct by call.",
+            "the operator x operand-type matrix: every unary/postfix/statement template applied to a parameter of each of 60 catalogue types (exhaustive), every infix/assignment operator and two-operand template on all pairs of catalogue types (exhaustive); each function the checker accepts is called through the host API and in-language with every combination of the catalogue's values for its parameter types (every union member, empty arrays, exhausted iterators, cells); the documentation corpus, 480 control-placement near misses (break/continue/return after, beside and inside every loop form in every kind of body; whatever is accepted is executed), and 40k (quick) tape-generated typed programs of every profile, a third of them with token-level edits (near misses; executed when still accepted) (closures, cells, iterators incl. exhausted ones, control flow, unions) are executed too. Oracle: the verif monitor reports every instruction result, argument binding, function return, the final result and every reachable cell with the static type the checker computed; the harness's own membership test (tag and contents, recursively) must hold. Non-trivial = an execution with at least one observation whose static type is a union, array, tuple, struct, function or mut; distinct by call.",
             &["instructions inside the placeholder-typed helper closures of @ ? ~ are not judged (their static types are not claims about user values)"],
         ),
         Mode::Panics => (
-            "the operator x operand-type matrix (as for C01), the documentation corpus and 40k (quick) tape-generated typed programs of every profile: every accepted function is called through the host API and in-language with every combination of catalogue values of its parameter types. Oracle: execution ends in a value or one of the six documented run-time errors; a panic is a violation; exhausted fuel/depth/length budgets are counted as inconclusive. Non-trivial = an accepted program that was executed to a value or documented error; distinct by call.",
+            "the operator x operand-type matrix (as for C01), the documentation corpus, 480 control-placement near misses and 40k (quick) tape-generated typed programs of every profile (a third of them with token-level edits, executed when the checker still accepts them): every accepted function is called through the host API and in-language with every combination of catalogue values of its parameter types. Oracle: execution ends in a value or one of the six documented run-time errors; a panic is a violation; exhausted fuel/depth/length budgets are counted as inconclusive. Non-trivial = an accepted program that was executed to a value or documented error; distinct by call.",
             &["programs run against std without fs and io"],
         ),
     };
